@@ -391,6 +391,23 @@ func (x *c10World) sync(fault string) {
 			x.bad("F4:finalizer-removed-without-finalized", "finalizer removed but the finalize answers were %v", finalizeAnswers)
 		}
 	}
+	// F8 (the "honoured" half of F4): in a fault-free sync on an up-to-date cache in which every finalize answer
+	// said finalized:true, the finalizer does come off (otherwise a deleting parent never goes away and an
+	// unselected one is finalized again and again)
+	if hookConfigured && len(finalizeAnswers) > 0 && fault == "" && err == nil && cachedParent != nil && liveBefore != nil &&
+		kit.UID(liveBefore) == string(cachedParent.GetUID()) && kit.Str(liveBefore, "metadata", "resourceVersion") == cachedParent.GetResourceVersion() &&
+		kit.HasFinalizer(liveBefore, c10Fin) {
+		all := true
+		for _, a := range finalizeAnswers {
+			all = all && a
+		}
+		if all {
+			x.clause("F8")
+			if after := x.parent(); after != nil && kit.HasFinalizer(after, c10Fin) {
+				x.bad("F8:finalizer-kept-after-finalized", "every finalize answer of this fault-free sync said finalized:true, yet the parent still carries the finalizer (finalizers %v)", kit.Get(after, "metadata", "finalizers"))
+			}
+		}
+	}
 	// F7: without a finalize hook a leftover finalizer is removed
 	if !hookConfigured && cachedParent != nil && contains(cachedParent.GetFinalizers(), c10Fin) && fault == "" &&
 		liveBefore != nil && kit.UID(liveBefore) == string(cachedParent.GetUID()) && kit.HasFinalizer(liveBefore, c10Fin) {
@@ -457,7 +474,7 @@ func c10Canon(x *c10World) string {
 func TestVerifC10(t *testing.T) {
 	r := mc.NewReport("C10", "composite")
 	defer r.Write()
-	r.DeclareClauses("F1", "F2", "F3", "F3:finalize", "F4", "F4:removal", "F5", "F6", "F7")
+	r.DeclareClauses("F1", "F2", "F3", "F3:finalize", "F4", "F4:removal", "F5", "F6", "F7", "F8")
 	var cfgs []c10Cfg
 	cfgs = append(cfgs, c10Cfg{Finalize: "split", Rolling: true})
 	for _, f := range []string{"none", "keep", "teardown", "now"} {
